@@ -138,7 +138,14 @@ Lost(tag, n) == IF n \in Droppable THEN (IF tag = "dropped" THEN {} ELSE {Fail("
                 ELSE IF n \in Harmless /\ tag = "dropped" THEN {}
                 ELSE {Fail(tag, n, "")}
 
-DoneFails(b, x, n, ks) == BindFails(b) \cup UNION {Lost("dropped", a) : a \in GivenNames(n, ks) \ BoundNames(b, x)}
+\* "required" is what the function's op_signature (onnxscript/ir/_schemas.op_signature_from_function)
+\* says, for inputs and attributes alike: a parameter it declares required must receive an argument in
+\* every call shape - being filled from the python default (trace-only call) or with None does not count
+ParamByName(n) == Params[CHOOSE j \in 1..NP : Params[j].name = n]
+SignatureFails(b) == {Fail("required_unbound", "", b[k].param) :
+                        k \in {j \in 1..Len(b) : b[j].src \in {"<default>", "<none>"} /\ ParamByName(b[j].param).required}}
+DoneFails(b, x, n, ks) == BindFails(b) \cup SignatureFails(b)
+                          \cup UNION {Lost("dropped", a) : a \in GivenNames(n, ks) \ BoundNames(b, x)}
 \* (what a raising call had bound before it raised is not observable on the real objects and is not judged)
 RaiseFails(b, e) ==
   CASE e.kind = "missing" -> {Fail("required_unbound", "", e.name)}
